@@ -287,6 +287,45 @@ func runCsvContract(c *Ctx, scope []*ssa.Function) {
 				ctxFn := f
 				if ci != nil && ci.ctor != nil && ci.ctor.Parent() != f {
 					owner := ci.ctor.Parent()
+					// the constructor itself may sit in a helper that is handed the file (newXColumns(file)): the state
+					// of the file is known where that helper is called
+					// (stop at the first function from which the accessor's function is reached)
+					reaches := func(from *ssa.Function) bool {
+						seen := map[*ssa.Function]bool{}
+						var rec func(g *ssa.Function, d int) bool
+						rec = func(g *ssa.Function, d int) bool {
+							if g == from {
+								return true
+							}
+							if seen[g] || d > 3 {
+								return false
+							}
+							seen[g] = true
+							for _, e := range p.Callers(g) {
+								if e.Caller != nil && rec(e.Caller, d+1) {
+									return true
+								}
+							}
+							return false
+						}
+						return rec(f, 0)
+					}
+					for hop := 0; hop < 3 && !reaches(owner); hop++ {
+						fp, isPrm := file.(*ssa.Parameter)
+						if !isPrm || fp.Parent() != owner {
+							break
+						}
+						callers := p.Callers(owner)
+						if len(callers) != 1 || callers[0].Caller == nil {
+							break
+						}
+						idx := paramIndex(fp)
+						args := callers[0].Site.Common().Args
+						if idx < 0 || idx >= len(args) {
+							break
+						}
+						file, owner = args[idx], callers[0].Caller
+					}
 					var sites []*ssa.BasicBlock
 					okSites := true
 					var up func(g *ssa.Function, d int)
@@ -357,6 +396,35 @@ func runCsvContract(c *Ctx, scope []*ssa.Function) {
 	csvSideObligations(c)
 }
 
+// constructsRequiredColumnsOn: the call hands `file` to a module function that requests required columns of it.
+func constructsRequiredColumnsOn(call *ssa.Call, file ssa.Value, d int) bool {
+	cal := call.Call.StaticCallee()
+	if cal == nil || len(cal.Blocks) == 0 || d > 2 {
+		return false
+	}
+	for i, a := range call.Call.Args {
+		if a != file || i >= len(cal.Params) {
+			continue
+		}
+		prm := cal.Params[i]
+		for _, b := range cal.Blocks {
+			for _, in := range b.Instrs {
+				c2, ok := in.(*ssa.Call)
+				if !ok {
+					continue
+				}
+				if req, isCtor := isColumnCtor(c2); isCtor && req && c2.Call.Args[0] == ssa.Value(prm) {
+					return true
+				}
+				if constructsRequiredColumnsOn(c2, prm, d+1) {
+					return true
+				}
+			}
+		}
+	}
+	return false
+}
+
 // ctorAfter: some File.RequiredColumn(file, ...) call can execute after the missing-columns test mc
 // (its column would not be covered by the test).
 func ctorAfter(f *ssa.Function, file ssa.Value, mc *ssa.Call) bool {
@@ -367,7 +435,9 @@ func ctorAfter(f *ssa.Function, file ssa.Value, mc *ssa.Call) bool {
 				continue
 			}
 			if req, isCtor := isColumnCtor(call); !isCtor || !req || call.Call.Args[0] != file {
-				continue
+				if !constructsRequiredColumnsOn(call, file, 0) {
+					continue
+				}
 			}
 			if b == mc.Block() {
 				if dominatesInstr(mc, call) {
@@ -512,12 +582,46 @@ func csvSideObligations(c *Ctx) {
 					continue
 				}
 				n++
-				// value: phi(-1, lookup headerMap[s]) or the lookup itself
-				vals := []ssa.Value{st.Val}
-				if phi, isPhi := st.Val.(*ssa.Phi); isPhi {
-					vals = phi.Edges
+				// value: phi(-1, lookup headerMap[s]) or the lookup itself -- possibly computed by a helper of the
+				// package that is handed the file and the name
+				type leaf struct {
+					v    ssa.Value
+					name ssa.Value // what stands for the column name where v lives
 				}
-				for _, v := range vals {
+				var leaves []leaf
+				var expand func(v ssa.Value, name ssa.Value, d int)
+				expand = func(v ssa.Value, name ssa.Value, d int) {
+					if d > 6 {
+						leaves = append(leaves, leaf{v, name})
+						return
+					}
+					switch x := v.(type) {
+					case *ssa.Phi:
+						for _, e := range x.Edges {
+							expand(e, name, d+1)
+						}
+					case *ssa.Call:
+						h := x.Call.StaticCallee()
+						if h == nil || x.Call.IsInvoke() || !p.isModuleFn(h) || len(h.Blocks) == 0 || h.Signature.Results().Len() != 1 || len(h.Params) != len(x.Call.Args) {
+							leaves = append(leaves, leaf{v, name})
+							return
+						}
+						var hname ssa.Value
+						for i, a := range x.Call.Args {
+							if a == name {
+								hname = h.Params[i]
+							}
+						}
+						eachReturned(h, 0, func(rv ssa.Value, at *ssa.BasicBlock, ret *ssa.Return) {
+							expand(rv, hname, d+1)
+						})
+					default:
+						leaves = append(leaves, leaf{v, name})
+					}
+				}
+				expand(st.Val, f.Params[1], 0)
+				for _, lf := range leaves {
+					v := lf.v
 					if k, isC := constInt(v); isC {
 						if k != -1 {
 							ok, why = false, fmt.Sprintf("constant index %d", k)
@@ -530,7 +634,7 @@ func csvSideObligations(c *Ctx) {
 						continue
 					}
 					lk, isLk := ex.Tuple.(*ssa.Lookup)
-					if !isLk || !strings.HasSuffix(canon(lk.X), "."+hdrMap+")") || lk.Index != ssa.Value(f.Params[1]) {
+					if !isLk || !strings.HasSuffix(canon(lk.X), "."+hdrMap+")") || lf.name == nil || lk.Index != lf.name {
 						ok, why = false, "index is not headerMap[name]"
 					}
 				}
